@@ -17,6 +17,7 @@ import PrologVerif.Driver.C09
 import PrologVerif.Driver.C20
 import PrologVerif.Driver.C17
 import PrologVerif.Driver.C06
+import PrologVerif.Driver.C05
 open PrologVerif PrologVerif.Driver
 
 def handlers : List (String × Handler) :=
@@ -56,7 +57,10 @@ def handlers : List (String × Handler) :=
     ("c06.lex", C06.lexHandler),
     ("c06.atoms", C06.atomsHandler),
     ("c06.numbers", C06.numbersHandler),
-    ("c06.terms", C06.termsHandler) ]
+    ("c06.terms", C06.termsHandler),
+    ("c05.matrix", C05.matrixHandler),
+    ("c05.text", C05.textHandler),
+    ("c05.parse", C05.parseHandler) ]
 
 partial def loop (h : IO.FS.Stream) (out : IO.FS.Stream) (f : Handler) : IO Unit := do
   let line ← h.getLine
